@@ -257,6 +257,11 @@ def jobs(tier):
             out.append(('step', (name, 2, 2, 2)))
             out.append(('step', (name, 2, 3, 0 if heavy else 1)))
             out.append(('step', (name, 3, 2, 0)))
+    # a single vector on one axis (1 x N, N x 1): the id-changing and reordering operations
+    for name in OPS:
+        if name.split(':')[0] in ('update_ids', 'sort_order', 'sort', 'filter-ids', 'transpose', 'concat', 'merge'):
+            out.append(('step', (name, 1, 3, 0)))
+            out.append(('step', (name, 3, 1, 0)))
     for name in COUNT_OPS:
         out.append(('count_step', (name, 2, 2)))
         if tier != 'quick':
